@@ -61,6 +61,15 @@ pub enum ConfigError {
     /// Missing required configuration value
     #[error("Missing required configuration: {0}")]
     MissingRequired(String),
+
+    /// A configuration value that cannot be served
+    #[error("Invalid value for {field}: {reason}")]
+    InvalidValue {
+        /// Name of the configuration field
+        field: String,
+        /// Reason for invalidity
+        reason: String,
+    },
 }
 
 /// Server runtime errors.
